@@ -428,3 +428,23 @@ func Shape3Gen(t *rapid.T, kinds []string, size, aspect float64, label string) S
 
 // AllKinds3 lists every primitive kind.
 var AllKinds3 = []string{"sphere", "rect", "capsule", "cylinder", "cone", "torus"}
+
+// Scaled returns the same shape in other units: every position and length multiplied by k > 0 (the torus axis B is a
+// direction and stays).  Distances scale by k, membership and normals do not change.
+func (s Shape3) Scaled(k float64) Shape3 {
+	out := s
+	out.A = s.A.Scale(k)
+	if s.Kind != "torus" {
+		out.B = s.B.Scale(k)
+	}
+	out.R, out.R2 = s.R*k, s.R2*k
+	return out
+}
+
+// UnitGen draws a unit for Scaled: mostly 1, sometimes anything between a nanometre and a gigametre per unit.
+func UnitGen(t *rapid.T, label string) float64 {
+	if rapid.IntRange(0, 7).Draw(t, label+".extreme") == 0 {
+		return LogF(t, 1e-9, 1e9, label+".unit")
+	}
+	return 1
+}
